@@ -12,9 +12,9 @@ VARIABLES s, pos, nflush, hist
 vars == <<s, pos, nflush, hist>>
 Init == s = Init0 /\ pos = 0 /\ nflush = 0 /\ hist = <<>>
 WriteA == \E k \in 0..3 : /\ pos + k <= Len(Stream)
-             /\ s' = Write(s, SubSeq(Stream, pos + 1, pos + k)) /\ pos' = pos + k /\ UNCHANGED nflush
+             /\ s' = Write(s, 1, SubSeq(Stream, pos + 1, pos + k)) /\ pos' = pos + k /\ UNCHANGED nflush
              /\ hist' = Append(hist, [k |-> "write", n |-> k])
-FlushA == /\ TRUE /\ s' = Flush(s) /\ nflush' = nflush + (IF s.raw > 0 THEN 1 ELSE 0) /\ UNCHANGED pos
+FlushA == /\ TRUE /\ s' = Flush(s, 1) /\ nflush' = nflush + (IF s.px[1].raw > 0 THEN 1 ELSE 0) /\ UNCHANGED pos
           /\ Len(hist) < 2 * Len(Stream) /\ (IF hist = <<>> THEN TRUE ELSE hist[Len(hist)].k # "flush")
           /\ hist' = Append(hist, [k |-> "flush"])
 Next == WriteA \/ FlushA
@@ -25,9 +25,11 @@ CatLines(ls) == IF ls = <<>> THEN <<>> ELSE Head(ls) \o CatLines(Tail(ls))
 Whole == Decode(DecInit, SubSeq(Stream, 1, pos))
 NewlinesSoFar == Len(Whole.lines)
 \* everything consumed appears exactly once, in order, with the terminal's pens
-ExactlyOnceInOrder == CatLines(s.out) \o s.dec.line = CatLines(Whole.lines) \o Whole.line
+ExactlyOnceInOrder == CatLines(s.out) \o s.px[1].dec.line = CatLines(Whole.lines) \o Whole.line
 LineCount == Len(s.out) = NewlinesSoFar + nflush
-PenCarried == s.dec.pen = Whole.pen
+PenCarried == s.px[1].dec.pen = Whole.pen
+\* the second proxy is untouched by the first one's traffic
+ProxiesIndependent == s.px[2] = Proxy0
 View == <<s, pos, nflush, IF hist = <<>> THEN "none" ELSE hist[Len(hist)].k>>
 Bound == Len(hist) <= 14
 Emit == /\ Len(hist) <= GenDepth /\ (Len(hist) = GenDepth => PrintT(ToJson([beh |-> hist])))
